@@ -504,4 +504,51 @@ theorem startup_modsNd (cfg : Cfg) (fuel : Nat) : (startup cfg fuel).modules.Nod
   · exact (top_core cfg fuel).1.modsNd
   · exact (top_core cfg fuel).1.modsNd
 
+theorem onceInOrder_append (a b : Ev) (A L : List Ev) (h : OnceInOrder a b A) (ha : a ∉ L) (hb : b ∉ L) :
+    OnceInOrder a b (A ++ L) := by
+  refine ⟨by rw [List.count_append, List.count_eq_zero.mpr ha]; exact h.1,
+          by rw [List.count_append, List.count_eq_zero.mpr hb]; exact h.2.1, ?_⟩
+  unfold NeverAfter
+  rw [List.pairwise_append]
+  refine ⟨h.2.2, pairwise_of_left L (fun x hx y hh => ?_), fun x _ y hy hh => ?_⟩
+  · have : x = b := beq_iff_eq.mp hh.1
+    exact hb (this ▸ hx)
+  · have : y = a := beq_iff_eq.mp hh.2
+    exact ha (this ▸ hy)
+
+theorem core_once (cfg : Cfg) (fuel : Nat) (herr : (core cfg fuel).errors = []) :
+    ∀ m ∈ (core cfg fuel).inited, OnceInOrder (Ev.early m) (Ev.init m) (core cfg fuel).log := by
+  intro m hm
+  have i := (top_core cfg fuel).1
+  have hnf : m ∉ (core cfg fuel).failed := fun h => i.failedErr m h herr
+  exact ⟨i.earlyIn m (Or.inr hm), i.initOk m hm hnf, i.order m⟩
+
+theorem core_created_inited (cfg : Cfg) (fuel : Nat) (hoof : (core cfg fuel).oof = false) :
+    ∀ m ∈ (createLoop cfg.dyn fuel fuel cfg.mods { known := cfg.mods }).modules, m ∈ (core cfg fuel).inited := by
+  intro m hm
+  obtain ⟨t1, _⟩ := top_createLoop cfg.dyn fuel fuel cfg.mods _ (inv_init cfg.mods)
+  obtain ⟨t2, _, r2⟩ := top_initAll fuel (createLoop cfg.dyn fuel fuel cfg.mods { known := cfg.mods }).modules _ t1
+  obtain ⟨_, m3, _⟩ := top_initAll fuel
+    (initAll fuel (createLoop cfg.dyn fuel fuel cfg.mods { known := cfg.mods }).modules
+      (createLoop cfg.dyn fuel fuel cfg.mods { known := cfg.mods })).exportL _ t2
+  have hoof2 : (initAll fuel (createLoop cfg.dyn fuel fuel cfg.mods { known := cfg.mods }).modules
+      (createLoop cfg.dyn fuel fuel cfg.mods { known := cfg.mods })).oof = false := by
+    cases h : (initAll fuel (createLoop cfg.dyn fuel fuel cfg.mods { known := cfg.mods }).modules
+      (createLoop cfg.dyn fuel fuel cfg.mods { known := cfg.mods })).oof with
+    | false => rfl
+    | true =>
+      have := m3.oof h
+      unfold core at hoof
+      simp only at hoof
+      rw [this] at hoof
+      cases hoof
+  exact m3.inited m (r2 hoof2 m hm hm)
+
+theorem start_loop_complete (st : St) (sched : List Act) :
+    (waitPhase st sched).filter isMainEv = startEvents st := by
+  obtain ⟨ws, hm⟩ := ws_finish st sched
+  have := ws.main
+  rw [hm, List.append_nil] at this
+  exact this
+
 end Frappy.Proofs.LifecycleWait
